@@ -3,6 +3,7 @@ package desync
 // C03: no chunk is delivered that does not hash to the requested ID.
 
 import (
+	"io"
 	"os"
 )
 
@@ -91,3 +92,30 @@ func VerifC03_Local() {
 // VerifC03_ReaderRetry: consumers of the stores - the seekable reader must not hand out bytes of
 // another chunk after a store request failed (see verifReaderRetry in the C09 harnesses).
 func VerifC03_ReaderRetry() { verifReaderRetry() }
+
+// VerifC03_NullChunkDigest: the all-zero shortcut of the readers (a chunk whose ID is the null
+// chunk's is produced without asking the store) under a process that works with both digests,
+// one after the other: what a reader hands out for an ID hashes to that ID under the digest in
+// force - an ID that is the null chunk's under the *other* digest is looked up in the store.
+func VerifC03_NullChunkDigest() {
+	zeros := []byte{0, 0}
+	digests := []HashAlgorithm{SHA512256{}, SHA256{}}
+	first := vChoose("first-digest", 2)
+	Digest = digests[first]
+	idx1 := Index{Index: FormatIndex{ChunkSizeMin: 1, ChunkSizeAvg: 1, ChunkSizeMax: 2}, Chunks: []IndexChunk{{ID: Digest.Sum(zeros), Start: 0, Size: 2}}}
+	r1 := NewIndexReadSeeker(idx1, &verifStore{})
+	b1 := make([]byte, 2)
+	n, err := r1.Read(b1)
+	vAssert(n == 2 && (err == nil || err == io.EOF) && b1[0] == 0 && b1[1] == 0, "null chunk not served under the first digest")
+	staleID := Digest.Sum(zeros)
+	Digest = digests[1-first]
+	vCover("digest-switched")
+	idx2 := Index{Index: FormatIndex{ChunkSizeMin: 1, ChunkSizeAvg: 1, ChunkSizeMax: 2}, Chunks: []IndexChunk{{ID: staleID, Start: 0, Size: 2}}}
+	r2 := NewIndexReadSeeker(idx2, &verifStore{}) // the store does not have that ID
+	b2 := make([]byte, 2)
+	n, err = r2.Read(b2)
+	if n > 0 {
+		vAssert(Digest.Sum(b2[:n]) == staleID, "the reader handed out bytes that do not hash to the requested ID under the digest in force")
+	}
+	vAssert(err != nil, "a chunk the store does not have was read without an error")
+}
